@@ -131,6 +131,7 @@ void heap_set_op(int op) { cur_op = op; }
 size_t heap_live_count(void) { return live_n; }
 size_t heap_live_bytes(void) { return live_bytes; }
 uint64_t heap_live_digest(void) { return live_digest; }
+uint32_t heap_next_id(void) { return next_id; }
 heap_viol_t heap_take_violation(void) { heap_viol_t v = pending_viol; pending_viol.kind = HV_NONE; return v; }
 int heap_is_live(const void *p) { return tab_find(p, NULL) >= 0; }
 size_t heap_block_size(const void *p) { int64_t i = tab_find(p, NULL); return i < 0 ? 0 : recs[i].size; }
